@@ -38,3 +38,13 @@ reg('C18', 'witnesses', 'rule_w_mut')
 reg('C20', 'eqhash', 'rule_hashcover')
 reg('C20', 'eqhash', 'rule_hashdet')
 reg('C20', 'caches', 'rule_memo')
+
+# ---- C12
+reg('C12', 'codec', 'rule_tables')
+reg('C12', 'codec', 'rule_alphabet')
+# ---- C15
+reg('C15', 'jsonmap', 'rule_json_names')
+reg('C15', 'jsonmap', 'rule_json_flow')
+# ---- C17
+reg('C17', 'panics', 'rule_decoder_total', ('dev', 'release'))
+reg('C17', 'panics', 'rule_json_entry', ('dev', 'release'))
